@@ -168,7 +168,23 @@ def _run_zpoints(case):
     single = np.array([_holo(scat.build_detector({"t": "points", "x": [d["x"][k]], "y": [d["y"][k]], "z": [d["z"][k]]}), cfg, s, th).values[0] for k in range(n)])
     t = cfg["theory"]["t"]
     resid = {"zpoints_reordered@" + t: relmax(permuted, allp[perm]), "zpoints_single@" + t: relmax(single, allp)}
-    return {"resid": resid, "flags": {}, "hptp": 1.0, "npix": n}
+    flags = {}
+    if t == "Multisphere" and "members" in cfg["scat"]:
+        # a point the solver cannot evaluate (exactly on the cluster's centroid, k r = 0) is refused wherever it stands in the list;
+        # it is not handed back as a silent nan among good values (F140)
+        from holopy.scattering.errors import MultisphereFailure
+        cen = np.mean([m_["c"] for m_ in cfg["scat"]["members"]], axis=0)
+        outcomes = []
+        for pos in (0, 1):
+            xs_, ys_, zs_ = list(d["x"][:2]), list(d["y"][:2]), list(d["z"][:2])
+            xs_.insert(pos, float(cen[0])); ys_.insert(pos, float(cen[1])); zs_.insert(pos, float(cen[2]))
+            try:
+                v = _holo(scat.build_detector({"t": "points", "x": xs_, "y": ys_, "z": zs_}), cfg, s, th).values
+                outcomes.append("finite" if np.all(np.isfinite(v)) else "nan")
+            except MultisphereFailure:
+                outcomes.append("refused")
+        flags["unevaluable_point_same_outcome_in_any_position"] = bool(outcomes[0] == outcomes[1] and "nan" not in outcomes)
+    return {"resid": resid, "flags": flags, "hptp": 1.0, "npix": n}
 
 
 def _run_pos(case):
